@@ -64,7 +64,7 @@ static string TickToken(int64_t ns, const map<int64_t, int>& rank) {
 
 /// Canonical key of a world: paths, contents, rank-normalised timestamps (jointly over file
 /// mtimes and the mtimes stored in both logs), logs by parsed last-wins meaning (+ raw damage).
-static string WorldKey(const vfs::Disk& d) {
+static string WorldKey(const vfs::Disk& d, bool skip_dirs = false) {
   lp::BuildLogModel bl;
   lp::DepsLogModel dl;
   if (const vfs::File* f = d.Get(kLog)) bl = lp::ParseBuildLog(f->data);
@@ -80,6 +80,7 @@ static string WorldKey(const vfs::Disk& d) {
   string k;
   for (auto& kv : d.files) {
     if (kv.first == kLog || kv.first == kDeps) continue;
+    if (skip_dirs && kv.second.dir) continue;
     k += kv.first;
     k += kv.second.dir ? "/D@" : "@";
     k += "r" + to_string(rank[kv.second.mtime]);
@@ -903,6 +904,563 @@ struct Explorer {
     out->push_back(x);
   }
 
+  // ---- C18: cleaning -------------------------------------------------------------------------
+  /// Files a statement owns: outputs (declared; dyndep-provided ones when the dyndep file exists),
+  /// depfile, response file.
+  static void OwnedFiles(const Stmt& s, const vfs::Disk& d, set<string>* out) {
+    if (s.phony) return;
+    for (auto& o : s.outs) out->insert(o);
+    if (!s.dyndep.empty() && d.Get(s.dyndep))
+      for (auto& o : s.spec.outs) out->insert(o);
+    if (!s.depfile.empty()) out->insert(s.depfile);
+    if (!s.rspfile.empty()) out->insert(s.rspfile);
+  }
+
+  void CleanReach(const Variant& v, const vfs::Disk& d, const string& node, set<string>* seen, set<int>* stmts) {
+    if (!seen->insert(node).second) return;
+    auto p = v.producer.find(node);
+    if (p == v.producer.end()) return;
+    const Stmt& s = v.stmts[p->second];
+    // an output known only through a dyndep file that does not exist is not known to ninja
+    if (find(s.outs.begin(), s.outs.end(), node) == s.outs.end() && !(!s.dyndep.empty() && d.Get(s.dyndep))) return;
+    stmts->insert(p->second);
+    for (auto* l : {&s.ex, &s.im, &s.oo}) for (auto& x : *l) CleanReach(v, d, x, seen, stmts);
+    if (!s.phony && !s.dyndep.empty() && d.Get(s.dyndep))
+      for (auto& x : s.spec.reads) CleanReach(v, d, x, seen, stmts);
+  }
+
+  void CheckClean(const Op& op, const RunResult& r, const vfs::Disk& before, const vfs::Disk& after, vector<Violation>* out) {
+    const Variant* v = VariantOf(sc, before);
+    if (!v) return;
+    if (!r.cmds.empty()) {
+      Violation x; x.prop = "C18"; x.clause = "clean-ran-commands";
+      x.detail = "a clean tool started build commands";
+      out->push_back(x);
+    }
+    set<string> scope;
+    if (op.tool_kind == "clean-all" || op.tool_kind == "clean-all-g") {
+      for (auto& s : v->stmts) {
+        if (s.generator && op.tool_kind == "clean-all") continue;
+        OwnedFiles(s, before, &scope);
+      }
+    } else if (op.tool_kind == "clean-targets") {
+      set<string> seen;
+      set<int> stmts;
+      for (auto& t : op.tool_args) CleanReach(*v, before, t, &seen, &stmts);
+      for (int si : stmts) OwnedFiles(v->stmts[si], before, &scope);
+    } else if (op.tool_kind == "clean-rules") {
+      for (auto& s : v->stmts)
+        if (find(op.tool_args.begin(), op.tool_args.end(), s.rule) != op.tool_args.end()) OwnedFiles(s, before, &scope);
+    } else if (op.tool_kind == "cleandead") {
+      lp::BuildLogModel bl;
+      if (auto* f = before.Get(kLog)) bl = lp::ParseBuildLog(f->data);
+      set<string> in_graph;
+      for (auto& s : v->stmts) {
+        for (auto& o : s.outs) in_graph.insert(o);
+        for (auto* l : {&s.ex, &s.im, &s.oo, &s.val}) for (auto& x : *l) in_graph.insert(x);
+        if (!s.dyndep.empty()) in_graph.insert(s.dyndep);
+        if (!s.phony && !s.dyndep.empty() && before.Get(s.dyndep)) {
+          for (auto& x : s.spec.outs) in_graph.insert(x);
+          for (auto& x : s.spec.reads) in_graph.insert(x);
+        }
+      }
+      // paths known from the deps log stay nodes of the graph as inputs of their statement
+      lp::DepsLogModel dl;
+      if (auto* f = before.Get(kDeps)) dl = lp::ParseDepsLog(f->data);
+      for (auto& kv : bl.entries) if (!in_graph.count(kv.first)) scope.insert(kv.first);
+    }
+    set<string> expected, removed;
+    for (auto& p : scope) { const vfs::File* f = before.Get(p); if (f && !f->dir) expected.insert(p); }
+    for (auto& kv : before.files)
+      if (!after.Get(kv.first) && kv.first != ".ninja_lock") removed.insert(kv.first);
+    // never: sources, phony names, anything outside the scope
+    for (auto& p : removed) {
+      if (expected.count(p)) continue;
+      Violation x; x.prop = "C18"; x.clause = "deleted-outside-scope";
+      bool is_out = v->producer.count(p) && !v->stmts[v->producer.at(p)].phony;
+      bool is_phony = v->producer.count(p) && v->stmts[v->producer.at(p)].phony;
+      x.detail = "'" + p + "' was deleted by '" + op.label + "' but is not in its scope (" +
+                 (is_phony ? "name of a phony statement" : is_out ? "output of a statement outside the scope" : "not an output at all") + ")";
+      x.facts.set("path", p);
+      x.facts.set("tool", op.tool_kind);
+      x.facts.set("phony_name", is_phony);
+      bool only_validation = false, any_ref = false;
+      for (auto& s : v->stmts) {
+        for (auto* l : {&s.ex, &s.im, &s.oo}) for (auto& q : *l) if (q == p) any_ref = true;
+        for (auto& q : s.val) if (q == p) only_validation = true;
+      }
+      x.facts.set("referenced_only_as_validation", only_validation && !any_ref && !is_out && !is_phony);
+      x.facts.set("dry_run", op.tool_dry);
+      out->push_back(x);
+    }
+    if (!op.tool_dry) {
+      for (auto& p : expected)
+        if (!removed.count(p)) {
+          Violation x; x.prop = "C18"; x.clause = "not-cleaned";
+          x.detail = "'" + p + "' exists and is in the scope of '" + op.label + "' but was not removed";
+          x.facts.set("path", p);
+          x.facts.set("tool", op.tool_kind);
+          out->push_back(x);
+        }
+    } else {
+      if (!removed.empty()) {
+        Violation x; x.prop = "C18"; x.clause = "dry-run-deleted";
+        x.detail = "'" + *removed.begin() + "' was deleted by a dry-run clean";
+        x.facts.set("tool", op.tool_kind);
+        out->push_back(x);
+      }
+      // the dry run reports the same set: verbose listing "Remove <path>"
+      if (r.out.find("Remove ") != string::npos) {
+        set<string> listed;
+        size_t pos = 0;
+        while ((pos = r.out.find("Remove ", pos)) != string::npos) {
+          size_t nl = r.out.find('\n', pos);
+          listed.insert(r.out.substr(pos + 7, nl - pos - 7));
+          pos = nl == string::npos ? r.out.size() : nl;
+        }
+        if (listed != expected) {
+          Violation x; x.prop = "C18"; x.clause = "dry-run-listing";
+          x.detail = "dry-run clean lists a different set than the files in scope";
+          x.facts.set("tool", op.tool_kind);
+          out->push_back(x);
+        }
+      }
+    }
+    // a following build re-creates everything
+    if (!op.tool_dry && r.exit_code == 0) {
+      vfs::Disk d2 = after;
+      RunConfig cfg;
+      cfg.args = {"-j1"};
+      RunResult r2 = RunNinja(&d2, cfg, {});
+      st.invocations++;
+      Op bop;
+      bop.kind = Op::kNinja;
+      vector<Violation> vs;
+      if (r2.exit_code != 0) {
+        Violation x; x.prop = "C18"; x.clause = "build-after-clean-fails";
+        x.detail = "the build after '" + op.label + "' exits " + to_string(r2.exit_code) + ": " + r2.out.substr(0, 200);
+        x.facts.set("tool", op.tool_kind);
+        out->push_back(x);
+      } else {
+        CheckContent(bop, r2, d2, &vs, "C18");
+        for (auto& x : vs) { x.clause = "build-after-clean:" + x.clause; x.facts.set("tool", op.tool_kind); out->push_back(x); }
+      }
+    }
+  }
+
+  // ---- C19: dry run and read-only tools --------------------------------------------------------
+  static vector<string> StatusLineCommands(const string& out) {
+    vector<string> v;
+    size_t pos = 0;
+    while (pos < out.size()) {
+      size_t nl = out.find('\n', pos);
+      if (nl == string::npos) nl = out.size();
+      string line = out.substr(pos, nl - pos);
+      pos = nl + 1;
+      if (line.size() > 3 && line[0] == '[' && isdigit((unsigned char)line[1])) {
+        size_t rb = line.find("] ");
+        if (rb != string::npos) v.push_back(line.substr(rb + 2));
+      }
+    }
+    return v;
+  }
+
+  void CheckReadOnly(const Op& op, const RunResult& r, const vfs::Disk& before, const vfs::Disk& after,
+                     vector<Violation>* out) {
+    if (!r.cmds.empty()) {
+      Violation x; x.prop = "C19"; x.clause = "tool-ran-commands";
+      x.detail = "'" + op.label + "' started " + to_string(r.cmds.size()) + " build command(s)";
+      x.facts.set("tool", op.tool_kind);
+      out->push_back(x);
+    }
+    if (r.hang || r.horizon) {
+      Violation x; x.prop = "C19"; x.clause = "tool-hangs"; x.detail = "'" + op.label + "' does not terminate";
+      out->push_back(x);
+      return;
+    }
+    if (WorldKey(before, true) != WorldKey(after, true)) {
+      Violation x; x.prop = "C19"; x.clause = "world-changed";
+      string what;
+      for (auto& kv : before.files) {
+        const vfs::File* f = after.Get(kv.first);
+        if (!f) what += " -" + kv.first;
+        else if (!kv.second.dir && (f->data != kv.second.data || f->mtime != kv.second.mtime)) what += " ~" + kv.first;
+      }
+      for (auto& kv : after.files) if (!before.Get(kv.first) && !kv.second.dir) what += " +" + kv.first;
+      x.detail = "'" + op.label + "' changed the tree or the meaning of the logs:" + what;
+      x.facts.set("tool", op.tool_kind);
+      x.facts.set("changed", what);
+      out->push_back(x);
+    }
+    const Variant* v = VariantOf(sc, before);
+    if (!v) return;
+    // the next real build behaves as if the tool had not run
+    {
+      RunConfig cfg;
+      cfg.args = {"-j1"};
+      for (auto& t : op.targets) cfg.args.push_back(t);
+      vfs::Disk d1 = before, d2 = after;
+      RunResult r1 = RunNinja(&d1, cfg, {}), r2 = RunNinja(&d2, cfg, {});
+      st.invocations += 2;
+      if (r1.exit_code != r2.exit_code || js::Dump(StartedList(r1)) != js::Dump(StartedList(r2)) ||
+          WorldKey(d1, true) != WorldKey(d2, true)) {
+        Violation x; x.prop = "C19"; x.clause = "next-build-differs";
+        x.detail = "the build after '" + op.label + "' differs from the build without it: started " +
+                   js::Dump(StartedList(r2)) + " vs " + js::Dump(StartedList(r1));
+        x.facts.set("tool", op.tool_kind);
+        out->push_back(x);
+      }
+      if (op.dry_run) {
+        // prediction: listed commands = commands of the real build (superset when restat prunes)
+        vector<string> listed = StatusLineCommands(r.out);
+        set<string> listed_set(listed.begin(), listed.end()), real;
+        bool restat_pruned = false;
+        for (auto& c : r1.cmds) {
+          real.insert(c.spec.line);
+          auto p = v->producer.find(c.spec.id());
+          if (p != v->producer.end() && v->stmts[p->second].restat && c.finished && !c.wrote) restat_pruned = true;
+        }
+        bool ok = restat_pruned ? includes(listed_set.begin(), listed_set.end(), real.begin(), real.end()) : listed_set == real;
+        if (r1.exit_code == 0 && !ok) {
+          Violation x; x.prop = "C19"; x.clause = "dry-run-prediction";
+          string l, q;
+          for (auto& s : listed_set) l += ParseCmd(s).id() + " ";
+          for (auto& s : real) q += ParseCmd(s).id() + " ";
+          x.detail = "-n lists {" + l + "} but the real build runs {" + q + "}";
+          x.facts.set("restat_pruning_in_real_build", restat_pruned);
+          out->push_back(x);
+        }
+        // order respects dependencies
+        map<string, int> pos;
+        for (size_t i = 0; i < listed.size(); ++i) pos[ParseCmd(listed[i]).id()] = (int)i;
+        for (auto& kv : pos) {
+          auto p = v->producer.find(kv.first);
+          if (p == v->producer.end()) continue;
+          set<int> up;
+          Upstream(*v, p->second, &up);
+          for (int u : up) {
+            auto q = pos.find(v->stmts[u].id);
+            if (q != pos.end() && q->second > kv.second) {
+              Violation x; x.prop = "C19"; x.clause = "dry-run-order";
+              x.detail = "-n lists '" + kv.first + "' before its producer '" + v->stmts[u].id + "'";
+              out->push_back(x);
+            }
+          }
+        }
+      }
+    }
+    if (op.tool_kind == "commands" && r.exit_code == 0) {
+      // -t commands [targets]: every command of the closure, producers first
+      vector<string> lines;
+      size_t pos = 0;
+      while (pos < r.out.size()) {
+        size_t nl = r.out.find('\n', pos);
+        if (nl == string::npos) nl = r.out.size();
+        if (nl > pos) lines.push_back(r.out.substr(pos, nl - pos));
+        pos = nl + 1;
+      }
+      vector<string> roots = op.tool_args.empty() ? DefaultTargets(*v) : op.tool_args;
+      set<int> stmts;
+      set<string> nodes;
+      // -t commands follows inputs only (not validations)
+      {
+        vector<string> todo(roots.begin(), roots.end());
+        while (!todo.empty()) {
+          string n = todo.back(); todo.pop_back();
+          if (!nodes.insert(n).second) continue;
+          auto p = v->producer.find(n);
+          if (p == v->producer.end() || !stmts.insert(p->second).second) continue;
+          const Stmt& s = v->stmts[p->second];
+          for (auto* l : {&s.ex, &s.im, &s.oo}) for (auto& x : *l) todo.push_back(x);
+        }
+      }
+      set<string> want;
+      for (int si : stmts) if (!v->stmts[si].phony) want.insert(v->stmts[si].cmd);
+      set<string> got(lines.begin(), lines.end());
+      if (got != want) {
+        Violation x; x.prop = "C19"; x.clause = "commands-tool-set";
+        x.detail = "-t commands prints " + to_string(got.size()) + " distinct commands, the closure has " + to_string(want.size());
+        out->push_back(x);
+      }
+      map<string, int> lpos;
+      for (size_t i = 0; i < lines.size(); ++i) if (!lpos.count(lines[i])) lpos[lines[i]] = (int)i;
+      for (int si : stmts) {
+        if (v->stmts[si].phony || !lpos.count(v->stmts[si].cmd)) continue;
+        set<int> up;
+        Upstream(*v, si, &up);
+        for (int u : up)
+          if (lpos.count(v->stmts[u].cmd) && lpos[v->stmts[u].cmd] > lpos[v->stmts[si].cmd]) {
+            Violation x; x.prop = "C19"; x.clause = "commands-tool-order";
+            x.detail = "-t commands prints '" + v->stmts[si].id + "' before its producer '" + v->stmts[u].id + "'";
+            out->push_back(x);
+          }
+      }
+    }
+    if (op.tool_kind == "compdb" && r.exit_code == 0) {
+      string why;
+      if (!StrictJson(r.out, &why)) {
+        Violation x; x.prop = "C19"; x.clause = "compdb-invalid-json";
+        x.detail = "compdb output is not valid JSON: " + why;
+        out->push_back(x);
+      }
+    }
+  }
+
+  /// R-json: strict RFC 8259 recogniser; bytes >= 0x80 inside strings are opaque.
+  static bool StrictJson(const string& s, string* why) {
+    size_t i = 0;
+    function<bool()> ws, value, str;
+    auto skip = [&] { while (i < s.size() && (s[i] == ' ' || s[i] == '\n' || s[i] == '\t' || s[i] == '\r')) ++i; };
+    str = [&]() -> bool {
+      if (i >= s.size() || s[i] != '"') { *why = "expected string at " + to_string(i); return false; }
+      ++i;
+      while (i < s.size() && s[i] != '"') {
+        unsigned char c = s[i];
+        if (c < 0x20) { *why = "raw control character " + to_string((int)c) + " in string at " + to_string(i); return false; }
+        if (c == '\\') {
+          ++i;
+          if (i >= s.size()) { *why = "dangling backslash"; return false; }
+          char e = s[i];
+          if (e == 'u') {
+            for (int k = 1; k <= 4; ++k)
+              if (i + k >= s.size() || !isxdigit((unsigned char)s[i + k])) { *why = "bad \\u escape at " + to_string(i); return false; }
+            i += 4;
+          } else if (!strchr("\"\\/bfnrt", e)) { *why = string("bad escape \\") + e + " at " + to_string(i); return false; }
+        }
+        ++i;
+      }
+      if (i >= s.size()) { *why = "unterminated string"; return false; }
+      ++i;
+      return true;
+    };
+    value = [&]() -> bool {
+      skip();
+      if (i >= s.size()) { *why = "unexpected end"; return false; }
+      if (s[i] == '"') return str();
+      if (s[i] == '[') {
+        ++i; skip();
+        if (i < s.size() && s[i] == ']') { ++i; return true; }
+        for (;;) {
+          if (!value()) return false;
+          skip();
+          if (i < s.size() && s[i] == ',') { ++i; continue; }
+          if (i < s.size() && s[i] == ']') { ++i; return true; }
+          *why = "expected , or ] at " + to_string(i); return false;
+        }
+      }
+      if (s[i] == '{') {
+        ++i; skip();
+        if (i < s.size() && s[i] == '}') { ++i; return true; }
+        for (;;) {
+          skip();
+          if (!str()) return false;
+          skip();
+          if (i >= s.size() || s[i] != ':') { *why = "expected : at " + to_string(i); return false; }
+          ++i;
+          if (!value()) return false;
+          skip();
+          if (i < s.size() && s[i] == ',') { ++i; continue; }
+          if (i < s.size() && s[i] == '}') { ++i; return true; }
+          *why = "expected , or } at " + to_string(i); return false;
+        }
+      }
+      if (s.compare(i, 4, "true") == 0) { i += 4; return true; }
+      if (s.compare(i, 5, "false") == 0) { i += 5; return true; }
+      if (s.compare(i, 4, "null") == 0) { i += 4; return true; }
+      size_t j = i;
+      if (j < s.size() && s[j] == '-') ++j;
+      size_t d = j;
+      while (j < s.size() && isdigit((unsigned char)s[j])) ++j;
+      if (j == d) { *why = "unexpected character at " + to_string(i); return false; }
+      i = j;
+      return true;
+    };
+    if (!value()) return false;
+    skip();
+    if (i != s.size()) { *why = "trailing data at " + to_string(i); return false; }
+    return true;
+  }
+
+  // ---- C17: dependency cycles --------------------------------------------------------------------
+  /// Inputs of a statement in the graph ninja can know at scan time: declared (not validations),
+  /// dyndep-provided when the dyndep file exists, discovered through an existing depfile or a
+  /// valid deps-log record.  `discovered` receives the subset known only through discovery.
+  vector<string> EffectiveInputs(const Variant& v, const Stmt& s, const vfs::Disk& d, const vfs::Disk* later,
+                                 set<string>* discovered) {
+    vector<string> in = s.AllDeclaredInputs();
+    if (!s.dyndep.empty() && !s.phony && (d.Get(s.dyndep) || (later && later->Get(s.dyndep))))
+      for (auto& x : s.spec.reads) if (find(in.begin(), in.end(), x) == in.end()) in.push_back(x);
+    if (s.phony) return in;
+    vector<string> disc;
+    if (!s.deps.empty()) {
+      lp::DepsLogModel dl;
+      if (auto* f = d.Get(kDeps)) dl = lp::ParseDepsLog(f->data);
+      auto it = dl.deps.find(s.id);
+      const vfs::File* o = d.Get(s.id);
+      if (it != dl.deps.end() && o && vfs::TickToNs(o->mtime) <= it->second.mtime) disc = it->second.deps;
+    } else if (!s.depfile.empty()) {
+      if (auto* f = d.Get(s.depfile)) {
+        size_t c = f->data.find(':');
+        if (c != string::npos && f->data.substr(0, c) == s.id) {
+          size_t i = c + 1;
+          while (i < f->data.size()) {
+            while (i < f->data.size() && (f->data[i] == ' ' || f->data[i] == '\n')) ++i;
+            size_t j = i;
+            while (j < f->data.size() && f->data[j] != ' ' && f->data[j] != '\n') ++j;
+            if (j > i) disc.push_back(f->data.substr(i, j - i));
+            i = j;
+          }
+        }
+      }
+    }
+    for (auto& x : disc)
+      if (find(in.begin(), in.end(), x) == in.end()) { in.push_back(x); if (discovered) discovered->insert(s.id + "\x01" + x); }
+    return in;
+  }
+
+  void CheckCycle(const Op& op, const RunResult& r, const vfs::Disk& before, const vfs::Disk& after,
+                  vector<Violation>* out) {
+    const Variant* v = VariantOf(sc, before);
+    if (!v || r.crashed) return;
+    if (r.hang || r.horizon) {
+      Violation x; x.prop = "C17"; x.clause = "hang"; x.detail = "ninja does not terminate";
+      out->push_back(x);
+      return;
+    }
+    vector<string> roots = TargetsOf(op, *v);
+    if (roots.empty()) return;
+    // closure + cycle search (iterative DFS with colours) over the effective graph
+    set<string> discovered;
+    map<string, vector<string>> adj;
+    set<string> closure;
+    vector<string> todo(roots.begin(), roots.end());
+    while (!todo.empty()) {
+      string n = todo.back(); todo.pop_back();
+      if (!closure.insert(n).second) continue;
+      auto p = v->producer.find(n);
+      if (p == v->producer.end()) continue;
+      const Stmt& s = v->stmts[p->second];
+      vector<string> in = EffectiveInputs(*v, s, before, &after, &discovered);
+      adj[n] = in;
+      for (auto& x : in) todo.push_back(x);
+      for (auto& x : s.val) todo.push_back(x);          // validations: new roots, no edge
+      for (auto& o : s.outs) if (o != n) { /* sibling outputs share the statement */ }
+    }
+    // statement-level cycle: node -> producer statement -> inputs
+    map<int, int> colour;  // 0 white 1 grey 2 black, per statement
+    bool cyclic = false, cycle_needs_discovery = false;
+    set<int> cyc_stmts;
+    function<bool(int, vector<int>&)> dfs = [&](int si, vector<int>& stack) -> bool {
+      colour[si] = 1;
+      stack.push_back(si);
+      const Stmt& s = v->stmts[si];
+      vector<string> in = adj.count(s.id) ? adj[s.id] : EffectiveInputs(*v, s, before, &after, &discovered);
+      for (auto& x : in) {
+        auto p = v->producer.find(x);
+        if (p == v->producer.end()) continue;
+        int t = p->second;
+        if (colour[t] == 1) {
+          cyclic = true;
+          bool on = false;
+          for (int q : stack) { if (q == t) on = true; if (on) cyc_stmts.insert(q); }
+          return true;
+        }
+        if (colour[t] == 0 && dfs(t, stack)) return true;
+      }
+      colour[si] = 2;
+      stack.pop_back();
+      return false;
+    };
+    for (auto& n : closure) {
+      auto p = v->producer.find(n);
+      if (p == v->producer.end() || colour[p->second]) continue;
+      vector<int> stack;
+      if (dfs(p->second, stack)) break;
+    }
+    if (cyclic) {
+      // would the cycle exist without discovered inputs?
+      for (int si : cyc_stmts)
+        for (auto& dsc : discovered)
+          if (dsc.compare(0, v->stmts[si].id.size() + 1, v->stmts[si].id + "\x01") == 0) {
+            string dep = dsc.substr(v->stmts[si].id.size() + 1);
+            auto p = v->producer.find(dep);
+            if (p != v->producer.end() && cyc_stmts.count(p->second)) cycle_needs_discovery = true;
+          }
+    }
+    size_t at = r.out.find("dependency cycle: ");
+    bool reported = at != string::npos;
+    if (cyclic && !reported) {
+      Violation x; x.prop = "C17"; x.clause = "cycle-not-diagnosed";
+      string ids;
+      for (int si : cyc_stmts) ids += v->stmts[si].id + " ";
+      x.detail = "the graph needed for the targets contains a cycle through {" + ids + "} but ninja reported none (exit " +
+                 to_string(r.exit_code) + ", started " + js::Dump(StartedList(r)) + ")";
+      x.facts.set("cycle_only_through_discovered_dependency", cycle_needs_discovery);
+      // is the discovering statement dirty for a reason of its own (so its deps were never loaded)?
+      bool dirty_own = false;
+      lp::BuildLogModel bl;
+      if (auto* f = before.Get(kLog)) bl = lp::ParseBuildLog(f->data);
+      for (int si : cyc_stmts) {
+        const Stmt& s = v->stmts[si];
+        if (s.phony || (s.deps.empty() && s.depfile.empty())) continue;
+        const vfs::File* o = before.Get(s.id);
+        if (!o || !bl.entries.count(s.id)) dirty_own = true;
+        for (auto* l : {&s.ex, &s.im})
+          for (auto& i : *l) { const vfs::File* f = before.Get(i); if (o && f && f->mtime > o->mtime) dirty_own = true; if (!f) dirty_own = true; }
+        for (auto& c : r.cmds) if (c.spec.id() == s.id) dirty_own = true;
+      }
+      x.facts.set("discovering_statement_dirty_for_its_own_reason", dirty_own);
+      out->push_back(x);
+      return;
+    }
+    if (!cyclic && reported) {
+      Violation x; x.prop = "C17"; x.clause = "false-cycle";
+      size_t nl = r.out.find('\n', at);
+      x.detail = "acyclic graph rejected: " + r.out.substr(at, nl - at);
+      out->push_back(x);
+      return;
+    }
+    if (!cyclic) return;
+    // check the printed cycle hop by hop
+    size_t nl = r.out.find('\n', at);
+    string path = r.out.substr(at + 18, nl == string::npos ? string::npos : nl - at - 18);
+    size_t sfx = path.find(" [-w phonycycle=err]");
+    if (sfx != string::npos) path.resize(sfx);
+    vector<string> hops;
+    size_t i = 0;
+    while (i <= path.size()) {
+      size_t j = path.find(" -> ", i);
+      if (j == string::npos) { hops.push_back(path.substr(i)); break; }
+      hops.push_back(path.substr(i, j - i));
+      i = j + 4;
+    }
+    bool ok = hops.size() >= 2 && hops.front() == hops.back();
+    for (size_t h = 0; ok && h + 1 < hops.size(); ++h) {
+      auto p = v->producer.find(hops[h]);
+      if (p == v->producer.end()) { ok = false; break; }
+      vector<string> in = EffectiveInputs(*v, v->stmts[p->second], before, &after, nullptr);
+      if (find(in.begin(), in.end(), hops[h + 1]) == in.end()) ok = false;
+    }
+    if (!ok) {
+      Violation x; x.prop = "C17"; x.clause = "printed-cycle-is-not-a-cycle";
+      x.detail = "'" + path + "' is not a cycle of the graph";
+      out->push_back(x);
+    }
+    for (auto& c : r.cmds) {
+      auto p = v->producer.find(c.spec.id());
+      if (p != v->producer.end() && cyc_stmts.count(p->second)) {
+        Violation x; x.prop = "C17"; x.clause = "command-on-cycle-ran";
+        x.detail = "'" + c.spec.id() + "' lies on the dependency cycle but its command was started";
+        x.facts.set("stmt", c.spec.id());
+        out->push_back(x);
+      }
+    }
+    if (r.exit_code == 0) {
+      Violation x; x.prop = "C17"; x.clause = "cycle-exit-status"; x.detail = "cycle reported but ninja exited 0";
+      out->push_back(x);
+    }
+  }
+
   /// C06: limits and liveness on one execution.
   void CheckLimits(const Op& op, const RunResult& r, vector<Violation>* out) {
     if (r.hang) {
@@ -1094,6 +1652,11 @@ struct Explorer {
       bool edited_during = !op.cfg.edits_during.empty();
       bool success = r.exit_code == 0 && !r.hang && !r.crashed && !r.horizon;
       bool content_bad = false;
+      if (op.tool && op.tool_kind.compare(0, 5, "clean") == 0) {
+        if (Want("C18")) CheckClean(op, r, w.disk, d, &vs);
+      } else if (op.tool || op.dry_run) {
+        if (Want("C19")) CheckReadOnly(op, r, w.disk, d, &vs);
+      }
       if (!op.tool && !op.dry_run) {
         if (success && !edited_during) {
           size_t n0 = vs.size();
@@ -1106,6 +1669,7 @@ struct Explorer {
         if (Want("C05")) CheckFailures(op, r, w.disk, d, baseline.get(), &vs);
         if (Want("C05") && !op.cfg.faults.empty()) CheckRetry(op, r, w.disk, d, &vs);
         if (Want("C06")) CheckLimits(op, r, &vs);
+        if (Want("C17")) CheckCycle(op, r, w.disk, d, &vs);
         if (Want("C07")) {
           CheckInterrupt(r, w.disk, d, &vs);
           if (w.abnormal) CheckUnexpectedError(op, r, &vs);
@@ -1353,6 +1917,8 @@ struct Explorer {
       if (i + 1 == hist.size()) {
         vector<Violation> vs;
         bool success = r.exit_code == 0 && !r.hang && !r.crashed;
+        if (op.tool && op.tool_kind.compare(0, 5, "clean") == 0) CheckClean(op, r, before, w.disk, &vs);
+        else if (op.tool || op.dry_run) CheckReadOnly(op, r, before, w.disk, &vs);
         if (!op.tool && !op.dry_run) {
           if (success && op.cfg.edits_during.empty()) {
             size_t n0 = vs.size();
@@ -1372,6 +1938,7 @@ struct Explorer {
           if (!op.cfg.faults.empty()) CheckRetry(op, r, before, w.disk, &vs);
           CheckLimits(op, r, &vs);
           CheckInterrupt(r, before, w.disk, &vs);
+          CheckCycle(op, r, before, w.disk, &vs);
           if (abnormal) {
             CheckUnexpectedError(op, r, &vs);
             size_t nv = vs.size();
